@@ -380,7 +380,7 @@ class Squid:
 
     def start(self, wait_ready=True, fresh_cache=True):
         conf = self.write_conf()
-        for f in glob.glob('/dev/shm/squid-%s-*' % self.service):
+        for f in (glob.glob('/dev/shm/squid-%s-*' % self.service) + glob.glob('/dev/shm/%s-*.shm' % self.service)):
             try:
                 os.unlink(f)
             except OSError:
@@ -607,7 +607,7 @@ class Squid:
             except OSError:
                 pass
             self.lsock = None
-        for f in glob.glob('/dev/shm/squid-%s-*' % self.service):
+        for f in (glob.glob('/dev/shm/squid-%s-*' % self.service) + glob.glob('/dev/shm/%s-*.shm' % self.service)):
             try:
                 os.unlink(f)
             except OSError:
